@@ -18,7 +18,7 @@ MINE = {"strand", "decode-of-documented-strand", "decoded-value", "wrong-length"
 
 def run(ctx):
     ctx.tlc("MC_Coding", "MC_Coding_witness.cfg", expect_violation=True, workers=8, heap="8g")
-    cfgs = ["MC_Coding_quick.cfg"] if ctx.quick else ["MC_Coding_quick.cfg", "MC_Coding_thorough.cfg", "MC_Coding_thorough2.cfg"]
+    cfgs = ["MC_Coding_quick.cfg"] if ctx.quick else ["MC_Coding_quick.cfg", "MC_Coding_thorough2.cfg"]      # the all-graphs scope runs under C01
     na = c01.flow_a(ctx, MINE, cfgs)
     from vlib.props import c06
     nd = c06.flow_a(ctx, MINE, walks_only=True)
